@@ -311,7 +311,7 @@ def gen_mt(rng):
         else:
             script.append((1, rng.choice([1.0, 1.0, 1.5, 0.6])))
     pp = rng.choice([0, 0, 1, 2])
-    line = "mt %d %s %s %s %s %d %d %d %d %d %s %d %s %d %s" % (
+    line = "mt %d %s %s %s %s %d %d %d %d none 4 ToNearest %d %s %d %s %d %s" % (
         ndv, hx(nl), " ".join(hx(D[i][j]) for i in range(ndv) for j in range(ndv)), hx(eeps), hx(seps),
         1 if dyn else 0, 10, 50, pp, nt, " ".join(map(hx, times)), len(cons),
         " ".join("%s %d %s" % (k, c, d) for k, c, d, _ in cons), len(script),
